@@ -159,7 +159,7 @@ SIZES = [0, 1, 7, 8, 9, 63, 64, 128, 129, 160, 161, 256, 257, 1000, 4095, 4096, 
 def gen_history(rng, hid, tier):
     big = rng.random() < 0.3
     cap = rng.choice([65536, 65536 * 2, 65536 * 4, 65536 * 16, 100000, 1]) if not big else rng.choice([1 << 20, 1 << 22])
-    n = rng.randint(5, 60 if tier == "quick" else 200)
+    n = rng.randint(5, 60 if tier == "quick" else 120)
     lines = ["H %d %d" % (hid, cap)]
     kinds = {}
     for _ in range(n):
@@ -289,7 +289,7 @@ def correspond(env, searching=False, model=True):
             kinds_total[k] = kinds_total.get(k, 0) + v
         hists.append(ls)
     # container histories (src/arena/string.rs through its public API, same arena as raw blocks)
-    n_khist = (220 if env.tier == "quick" else 15000) * (4 if searching else 1)
+    n_khist = (220 if env.tier == "quick" else 5000) * (4 if searching else 1)
     for _ in range(n_khist):
         ls, kinds = gen_khistory(rng, len(hists), env.tier)
         for k, v in kinds.items():
